@@ -90,7 +90,7 @@ impl Default for GenCfg {
 
 const HOSTILE_CHARS: &[&str] = &[
     "a", "b", " ", "\t", "\n", "\r", "<", "&", ">", "'", "\"", "]", "-", "?", "é", "€", "𝄞",
-    "\u{85}", "\u{a0}", "\u{2003}", "\u{2028}", "\u{d7ff}", "\u{e000}", "\u{fffd}", "]]>", "]]]>",
+    "\u{85}", "\u{a0}", "\u{2003}", "\u{2028}", "\u{d7ff}", "\u{e000}", "\u{fffd}", "\u{feff}", "]]>", "]]]>",
     "]]", "--", "?>", "&amp;", "&#13;", "&lt;", "<!--", "<![CDATA[", "=", "/", "x", "1", "  ",
 ];
 
